@@ -43,30 +43,30 @@ theorem flag_old (s s' : St) (e : Ev) (m : M7b) (hR : Sim7b s m) (hs : step s e 
   rw [hk2]
   exact ⟨hst, genOr_step s s' e m.o y.key g hR.o hst hG hs⟩
 
-/-- the flags that are new after the event are justified -/
-def NewOk (s' : St) (m : M7b) (flx : List Bool) : Prop :=
-  ∀ (j g i : Nat) (y' : G), flx[j]? = some true → m.fl[j]? ≠ some true → s'.runs[j]? = some (g, i) →
-    s'.gens[g]? = some y' → GenOr s' y'.key g
-
 theorem flagInv_next (s s' : St) (e : Ev) (m : M7b) (a' : M7a) (o' : M6o) (flx : List Bool) (hR : Sim7b s m)
-    (hs : step s e = some s') (ha : Sim s' a') (hlen : flx.length = s'.runs.length) (hnew : NewOk s' m flx) :
+    (hs : step s e = some s') (ha : Sim s' a') (ho : Sim6 s' o') (hlen : flx.length = s'.runs.length)
+    (hext : ∀ (j : Nat), flx[j]? = some true → m.fl[j]? = some true) :
     FlagInv s' { a := a', o := o', fl := flagsUpd a' o' flx } := by
   refine ⟨?_, ?_⟩
   · simp only [flagsUpd, List.length_zipWith, ha.view.len, hlen, Nat.min_self]
   · intro j g i y' hf hj hy'
     obtain ⟨r, f, hr, hfx, hc⟩ := zipWith_get _ _ _ j true hf
-    obtain ⟨y2, x2, hy2, _, _, _, hm⟩ := ha.view.run j g i hj
+    obtain ⟨y2, x2, hy2, hx2, _, _, hm⟩ := ha.view.run j g i hj
     rw [hy'] at hy2; cases hy2
     rw [hr] at hm; cases hm
-    have hc' : f = true ∧ o'.st y'.key = .present := by
+    have hc' : (f = true ∧ o'.st y'.key = .present) ∨ o'.cur y'.key x2.data = true := by
       have := hc.symm
       simpa using this
-    obtain ⟨hf1, hst⟩ := hc'
-    subst hf1
-    refine ⟨hst, ?_⟩
-    by_cases hold : m.fl[j]? = some true
-    · exact (flag_old s s' e m hR hs j g i y' hold hj hy').2
-    · exact hnew j g i y' hfx hold hj hy'
+    rcases hc' with ⟨hf1, hst⟩ | hcur
+    · subst hf1
+      exact ⟨hst, (flag_old s s' e m hR hs j g i y' (hext j hfx) hj hy').2⟩
+    · obtain ⟨r, hr, hrg⟩ := cur_gen s' o' y'.key x2.data g i y' x2 ha.kd.d ho hcur hy' hx2 rfl rfl
+      have hst : o'.st y'.key = .present := by
+        simp only [M6o.cur, Bool.and_eq_true, beq_iff_eq] at hcur
+        exact hcur.1.2
+      refine ⟨hst, ?_⟩
+      intro r' hr'
+      rw [hr] at hr'; cases hr'; exact hrg
 
 theorem flag_silent (s s' : St) (e : Ev) (m : M7b) (hR : Sim7b s m) (hs : step s e = some s')
     (hob : model.obs e = none) : FlagInv s' m := by
@@ -81,22 +81,19 @@ theorem flag_silent (s s' : St) (e : Ev) (m : M7b) (hR : Sim7b s m) (hs : step s
 /-- an observable event other than `cbin` -/
 theorem plain_facts (s s' : St) (e : Ev) (m : M7b) (ob : Obs) (hR : Sim7b s m) (hs : step s e = some s')
     (hext : m.ext ob = m.fl) (hne : ∀ j g i k d, e ≠ .cbin j g i k d) :
-    (m.ext ob).length = s'.runs.length ∧ NewOk s' m (m.ext ob) := by
+    (m.ext ob).length = s'.runs.length ∧ ∀ (j : Nat), (m.ext ob)[j]? = some true → m.fl[j]? = some true := by
   have hruns : s'.runs = s.runs := by
     rcases runs_step s s' e hs with h | ⟨j, g, i, k, d, he, _⟩
     · exact h
     · exact absurd he (hne j g i k d)
   rw [hext]
-  refine ⟨by rw [hruns]; exact hR.f.len, ?_⟩
-  intro j g i y' hf hnf
-  exact absurd hf hnf
+  exact ⟨by rw [hruns]; exact hR.f.len, fun _ h => h⟩
 
 /-- the routine function is entered -/
 theorem cbin_facts (s s' : St) (j0 g0 i0 k d : Nat) (m : M7b) (hR : Sim7b s m)
     (hs : step s (.cbin j0 g0 i0 k d) = some s') :
     m.bad (.cbin j0 k d) = false ∧ (m.ext (.cbin j0 k d)).length = s'.runs.length ∧
-      NewOk s' m (m.ext (.cbin j0 k d)) := by
-  have hs0 := hs
+      ∀ (j : Nat), (m.ext (.cbin j0 k d))[j]? = some true → m.fl[j]? = some true := by
   simp only [step] at hs
   split at hs
   · rename_i hj0
@@ -111,7 +108,6 @@ theorem cbin_facts (s s' : St) (j0 g0 i0 k d : Nat) (m : M7b) (hR : Sim7b s m)
           obtain ⟨hent, hkey, hdata⟩ := hc
           simp at hs
           have hruns : s'.runs = s.runs ++ [(g0, i0)] := by subst hs; rfl
-          have hkeys : ∀ k', s'.key k' = s.key k' := by intro k'; subst hs; rfl
           refine ⟨?_, ?_, ?_⟩
           · -- no flagged run of the key is inside its function
             cases hb : m.bad (.cbin j0 k d) with
@@ -120,7 +116,7 @@ theorem cbin_facts (s s' : St) (j0 g0 i0 k d : Nat) (m : M7b) (hR : Sim7b s m)
               exfalso
               simp only [M7b.bad, Bool.and_eq_true] at hb
               obtain ⟨hcur, hcl⟩ := hb
-              obtain ⟨r, hr, hrg⟩ := cur_gen s m k d g0 i0 y x hR.a.kd.d hR.o hcur hy hx hkey hdata
+              obtain ⟨r, hr, hrg⟩ := cur_gen s m.o k d g0 i0 y x hR.a.kd.d hR.o hcur hy hx hkey hdata
               simp only [M7b.clash, List.any_eq_true, List.mem_range] at hcl
               obtain ⟨j, hjlt, hmt⟩ := hcl
               rw [hR.a.view.len] at hjlt
@@ -149,31 +145,18 @@ theorem cbin_facts (s s' : St) (j0 g0 i0 k d : Nat) (m : M7b) (hR : Sim7b s m)
                     rw [hx] at hx1; cases hx1
                     rw [hent] at hst1; cases hst1
           · simp only [M7b.ext, List.length_append, List.length_singleton, hruns, hR.f.len]
-          · intro j g i y' hf hnf hj hy'
+          · intro j hf
             simp only [M7b.ext] at hf
-            have hjl : ¬ j < m.fl.length := by
-              intro hlt
-              rw [List.getElem?_append_left hlt] at hf
-              exact hnf hf
-            have hjle : j < m.fl.length + 1 := by
-              have := lt_of_get? hf
-              simpa using this
-            have hje : j = m.fl.length := by omega
-            subst hje
-            have hcur : m.cur k d = true := by
+            by_cases hlt : j < m.fl.length
+            · rwa [List.getElem?_append_left hlt] at hf
+            · exfalso
+              have hjle : j < m.fl.length + 1 := by
+                have := lt_of_get? hf
+                simpa using this
+              have hje : j = m.fl.length := by omega
+              subst hje
               rw [List.getElem?_append_right (Nat.le_refl _)] at hf
-              simpa using hf
-            rw [hruns, hR.f.len, List.getElem?_append_right (Nat.le_refl _)] at hj
-            simp at hj
-            obtain ⟨rfl, rfl⟩ := hj
-            obtain ⟨y2, hy2, hk2, _⟩ := (grow_step s s' _ hs0).gens g0 y hy
-            rw [hy'] at hy2; cases hy2
-            obtain ⟨r, hr, hrg⟩ := cur_gen s m k d g0 i0 y x hR.a.kd.d hR.o hcur hy hx hkey hdata
-            rw [hk2, hkey]
-            intro r' hr'
-            rw [hkeys, hr] at hr'
-            cases hr'
-            exact hrg
+              simp at hf
         · simp at hs
   · simp at hs
 
@@ -193,7 +176,8 @@ theorem sim7b_step (s : St) (e : Ev) (s' : St) (m : M7b) (hR : Sim7b s m) (hs : 
     simp only [hob] at ha ho ⊢
     obtain ⟨a', ha1, ha2⟩ := ha
     obtain ⟨o', ho1, ho2⟩ := ho
-    have hfacts : m.bad ob = false ∧ (m.ext ob).length = s'.runs.length ∧ NewOk s' m (m.ext ob) := by
+    have hfacts : m.bad ob = false ∧ (m.ext ob).length = s'.runs.length ∧
+        ∀ (j : Nat), (m.ext ob)[j]? = some true → m.fl[j]? = some true := by
       cases e with
       | cbin j0 g0 i0 k d => cases hob; exact cbin_facts s s' j0 g0 i0 k d m hR hst
       | proceed g i => cases hob
@@ -214,14 +198,14 @@ theorem sim7b_step (s : St) (e : Ev) (s' : St) (m : M7b) (hR : Sim7b s m) (hs : 
       | nilnext k => cases hob; exact ⟨rfl, plain_facts s s' _ m _ hR hst rfl (by intros; simp)⟩
     obtain ⟨hbad, hlen, hnew⟩ := hfacts
     refine ⟨{ a := a', o := o', fl := flagsUpd a' o' (m.ext ob) }, ?_, ha2, ⟨hG, ho2⟩,
-      flagInv_next s s' e m a' o' _ hR hst ha2 hlen hnew⟩
+      flagInv_next s s' e m a' o' _ hR hst ha2 ⟨hG, ho2⟩ hlen hnew⟩
     simp [monC07b, hbad, ha1, ho1]
 
 /-- **C07 (one running), observable form across `ResetRoutine`/`RestartRoutine`.** Every observable trace
 of the model is accepted by `monC07b`: a routine function is never entered for the current record of a key
 (no call in progress, the key known to be in the set, the run's constructor generation the current one)
-while a run of that key that was itself entered for the then-current record is still inside its function
-and the key is known to have stayed in the set since — whatever `ResetRoutine` (new record, new
+while a run of that key that was itself seen to belong to the then-current record is still inside its
+function and the key is known to have stayed in the set since — whatever `ResetRoutine` (new record, new
 constructor generation), `RestartRoutine`, `SetKey`, `SetContext` and retries did in between. The same
 monitor is evaluated on the histories of the real code. -/
 theorem C07b_obs (es : List Ev) (s : St) (hr : model.run model.init es = some s) :
